@@ -51,7 +51,14 @@ class Plain(Stream):
     def gen(self, rng, n):
         for i in range(n):
             src = sg.equalize(sg.rand_score(rng, max_chords=4, rel=0.0, accs=False))
-            yield {"src": src, "tgt": rand_target(rng), "keep": i % 3 == 0}
+            tgt = rand_target(rng)
+            if i % 5 == 4:
+                # the target follows the SAME chord progression as the source, with another harmonic rhythm (and maybe fewer chords)
+                keep_n = rng.randrange(1, len(src) + 1)
+                tgt = [{**{k: c[k] for k in ("elem", "fig", "tdeg", "tmode", "toct", "coct")},
+                        "parts": [[TARGET_NAMES[0], [{"kind": "s", "val": rng.randrange(7), "oct": 0,
+                                                      "dur": rng.choice([F(1), F(1, 2), F(2), F(3), F(3, 2)]), "amp": 66}]]]} for c in src[:keep_n]]
+            yield {"src": src, "tgt": tgt, "keep": i % 3 == 0}
 
     def impl(self, case):
         def f():
